@@ -109,6 +109,9 @@ func runC11(c *Ctx) {
 			default:
 				if acc.kind == "read" {
 					c.ok("C11.a", key, sel.Pos(), "read-only use (len/index/range) outside the owners")
+				} else if acc.kind == "write" && canonPath(info, sel.X) == "Vaxis.screenLast" {
+					// the last-frame copy is the renderer's own bookkeeping, not the application's screen
+					c.ok("C11.a", key, sel.Pos(), "store into the renderer's last-frame copy (helper of render)")
 				} else {
 					c.bad("C11.a", key, sel.Pos(), "screen.buf is %s outside its owners (resize/setCell/setStyle/render): a write that bypasses the clip guard%s", acc.kind, acc.why)
 				}
@@ -430,22 +433,63 @@ func c11ResizeShape(c *Ctx, fi *FuncInfo, info *types.Info) {
 		"buf = make([][]Cell, R) and rows = R for the same parameter R", "resize no longer allocates len(buf) == rows (the row guard in setCell is then not a bound on the buffer)")
 	c.check(isParam(rowLen) && rowLen == colsSrc && rowLen != bufLen, "C11.a", "vaxis.(*screen).resize/len(buf[i]) == cols", fd.Pos(),
 		"every row = make([]Cell, C) and cols = C for the same parameter C", "resize no longer allocates every row with len == cols (the column guard in setCell is then not a bound on the row)")
-	// every row is allocated: the row allocation sits in a range loop over buf
+	// every row is allocated: the row allocation sits in a loop over all rows (range over buf, or an index
+	// loop from 0 while < rows / len(buf) stepping by one)
 	inRange := false
-	ast.Inspect(fd.Body, func(n ast.Node) bool {
-		rs, ok := n.(*ast.RangeStmt)
-		if !ok {
+	rowStore := func(body *ast.BlockStmt, idx string) bool {
+		found := false
+		ast.Inspect(body, func(m ast.Node) bool {
+			if as, ok := m.(*ast.AssignStmt); ok && len(as.Lhs) == 1 {
+				if ix, ok := as.Lhs[0].(*ast.IndexExpr); ok && types.ExprString(stripRecv(ix.X)) == "buf" && types.ExprString(ix.Index) == idx {
+					found = true
+				}
+			}
 			return true
-		}
-		if types.ExprString(stripRecv(rs.X)) == "buf" && rs.Key != nil {
-			ast.Inspect(rs.Body, func(m ast.Node) bool {
-				if as, ok := m.(*ast.AssignStmt); ok && len(as.Lhs) == 1 {
-					if ix, ok := as.Lhs[0].(*ast.IndexExpr); ok && types.ExprString(stripRecv(ix.X)) == "buf" && types.ExprString(ix.Index) == types.ExprString(rs.Key) {
-						inRange = true
+		})
+		return found
+	}
+	ast.Inspect(fd.Body, func(n ast.Node) bool {
+		switch rs := n.(type) {
+		case *ast.RangeStmt:
+			if types.ExprString(stripRecv(rs.X)) == "buf" && rs.Key != nil && rowStore(rs.Body, types.ExprString(rs.Key)) {
+				inRange = true
+			}
+		case *ast.ForStmt:
+			// for i := 0; i < R; i++ / i += 1 with R the rows parameter, s.rows (after assignment) or len(s.buf)
+			init, ok1 := rs.Init.(*ast.AssignStmt)
+			cond, ok2 := rs.Cond.(*ast.BinaryExpr)
+			if !ok1 || !ok2 || len(init.Lhs) != 1 || len(init.Rhs) != 1 || cond.Op != token.LSS {
+				return true
+			}
+			iv, ok := init.Lhs[0].(*ast.Ident)
+			if !ok {
+				return true
+			}
+			if v, isC := constInt(info, init.Rhs[0]); !isC || v != 0 {
+				return true
+			}
+			if id, ok := cond.X.(*ast.Ident); !ok || id.Name != iv.Name {
+				return true
+			}
+			bound := types.ExprString(stripRecv(cond.Y))
+			okBound := bound == "len(buf)"
+			if id, ok := cond.Y.(*ast.Ident); ok && info.Uses[id] == bufLen && bufLen != nil {
+				okBound = true
+			}
+			step := false
+			switch p := rs.Post.(type) {
+			case *ast.IncDecStmt:
+				step = p.Tok == token.INC
+			case *ast.AssignStmt:
+				if p.Tok == token.ADD_ASSIGN && len(p.Rhs) == 1 {
+					if v, isC := constInt(info, p.Rhs[0]); isC && v == 1 {
+						step = true
 					}
 				}
-				return true
-			})
+			}
+			if okBound && step && rowStore(rs.Body, iv.Name) {
+				inRange = true
+			}
 		}
 		return true
 	})
@@ -781,6 +825,9 @@ func c11TextHelpers(c *Ctx) {
 								if l == "row" && as.Tok.String() == "+=" {
 									bump = true
 								}
+							}
+							if inc, ok := n.(*ast.IncDecStmt); ok && inc.Tok == token.INC && types.ExprString(inc.X) == "row" {
+								bump = true
 							}
 						}
 						if reset && bump {
